@@ -103,7 +103,7 @@ GLOBAL_BENIGN = [
 
 
 # properties whose rules are confirmed independent of the names of local variables (the others are being converted)
-RENAME_ROBUST = {"C03", "C06", "C07", "C13", "C14", "C17", "C19", "C20"}
+RENAME_ROBUST = {"C01", "C02", "C03", "C04", "C05", "C06", "C07", "C13", "C14", "C16", "C17", "C19", "C20"}
 
 
 def _one(args):
